@@ -1007,6 +1007,43 @@ func (p *Pure) loadAlloc(a *ssa.Alloc, mode int) Val {
 			n++
 		}
 	}
+	if st, isS := isStruct(deref(a.Type())); isS && n == 0 {
+		// struct local built field by field (composite literal): assemble the datatype value
+		t := deref(a.Type())
+		name := p.env.e.sortOf(t)
+		if st.NumFields() == 0 {
+			return Val{T: "mk_" + name, S: name}
+		}
+		var fs []string
+		for i := 0; i < st.NumFields(); i++ {
+			var store *ssa.Store
+			cnt := 0
+			for _, r := range *a.Referrers() {
+				if fa, ok := r.(*ssa.FieldAddr); ok && fa.Field == i {
+					for _, r2 := range *fa.Referrers() {
+						if s2, ok := r2.(*ssa.Store); ok && s2.Addr == fa {
+							store = s2
+							cnt++
+						}
+					}
+				}
+			}
+			switch {
+			case cnt == 0:
+				fs = append(fs, p.env.e.zeroValue(st.Field(i).Type()))
+			case cnt == 1:
+				v := p.term(store.Val, mode)
+				if v.Loc != nil {
+					v = p.env.materialize(v)
+				}
+				fs = append(fs, v.T)
+			default:
+				p.env.errorf("struct local field assigned more than once in pure function %s", p.fn.String())
+				fs = append(fs, p.env.e.zeroValue(st.Field(i).Type()))
+			}
+		}
+		return Val{T: fmt.Sprintf("(mk_%s %s)", name, strings.Join(fs, " ")), S: name}
+	}
 	if n == 0 {
 		t := deref(a.Type())
 		return Val{T: p.env.e.zeroValue(t), S: p.env.e.sortOf(t)}
@@ -1034,6 +1071,25 @@ func (p *Pure) loadAllocField(a *ssa.Alloc, fa *ssa.FieldAddr, mode int) Val {
 	}
 	ft := deref(fa.Type())
 	if n == 0 {
+		// the struct was stored as a whole (e.g. a struct parameter spilled to a local)
+		var whole *ssa.Store
+		wn := 0
+		for _, r := range *a.Referrers() {
+			if s2, ok := r.(*ssa.Store); ok && s2.Addr == a {
+				whole = s2
+				wn++
+			}
+		}
+		if wn == 1 {
+			v := p.term(whole.Val, mode)
+			stT, _ := isStruct(deref(a.Type()))
+			name := p.env.e.sortOf(deref(a.Type()))
+			return Val{T: fmt.Sprintf("(%s.%s %s)", name, fieldName(stT.Field(fa.Field), fa.Field), v.T), S: p.env.e.sortOf(ft)}
+		}
+		if wn > 1 {
+			p.env.errorf("struct local assigned more than once in pure function %s", p.fn.String())
+			return p.env.freshVal("allocf", ft)
+		}
 		return Val{T: p.env.e.zeroValue(ft), S: p.env.e.sortOf(ft)}
 	}
 	if n != 1 {
